@@ -149,5 +149,7 @@ pub fn main(args: &[String]) {
             rep.count(&format!("predicted:{c}"));
         }
     }
+    // the repository's own bridges through the real binary, every backend
+    crate::repo_tests::all_backends_terminate(&mut rep);
     rep.print();
 }
